@@ -406,7 +406,7 @@ def candidates_for(run, info, before, after, host_before, host_after):
         alts = [items]
         for pid, st in info.get('drained', []):
             if pid in by_id:
-                alts = [a + [pr_item(by_id[pid], s, '-', [])] for a in alts for s in stage_of(st)]
+                alts = [a + b for a in alts for b in pr_alts(by_id[pid], st)]
         return alts
     if kind == 'force_merge_queues':
         if status not in ('Merged',):
@@ -425,7 +425,7 @@ def candidates_for(run, info, before, after, host_before, host_after):
         if run.cfg.use_queue and name.startswith('development/'):
             for pid, st in info.get('drained', []):
                 if pid in by_id:
-                    alts = [a + [pr_item(by_id[pid], s, '-', [])] for a in alts for s in stage_of(st)]
+                    alts = [a + b for a in alts for b in pr_alts(by_id[pid], st)]
         return alts
     if kind == 'delete_branch':
         if status != 'JobSuccess':
